@@ -260,4 +260,212 @@ def hrun (deadline : Bool) : Handler → List HEv → Handler × List HOut
     let (h2, o2) := hrun deadline h1 es
     (h2, o1 ++ o2)
 
+
+/-! ### (b') the request object with arbitrarily many by-value copies
+
+Used to check, against real Go, the semantics the model above assumes: a copy of the struct
+carries its own `sync.Once` (in the state it had when copied); the channel and context are shared. -/
+
+structure Obj where
+  onces   : List Bool := [false]    -- copy 0 is the original
+  ctxDone : Bool := false
+  waiter  : Waiter := .waiting
+  closes  : Nat := 0
+  deriving Repr
+
+inductive OEv
+  | copy (a : Nat)
+  | fire (a : Nat) (v : Res) (win : Bool)   -- replyResult(v) on copy a
+  | cancel                                  -- cancel the context and let waitForResult return
+  deriving Repr
+
+def ostep (o : Obj) : OEv → Obj
+  | .copy a =>
+    match o.onces[a]? with
+    | some b => { o with onces := o.onces ++ [b] }
+    | none => o
+  | .fire a v win =>
+    if o.closes ≥ 2 then o else        -- the process has panicked already
+    match o.onces[a]? with
+    | some false =>
+      let o1 := { o with onces := o.onces.set a true, closes := o.closes + 1 }
+      if o.waiter = .waiting ∧ (o.ctxDone = false ∨ win = true) then
+        { o1 with waiter := .got v, ctxDone := true }
+      else o1
+    | _ => o
+  | .cancel =>
+    { o with ctxDone := true, waiter := if o.waiter = .waiting then .ctxErr else o.waiter }
+
+/-! ### driver (line protocol of the correspondence run) -/
+
+def showWaiter : Waiter → String
+  | .waiting => "hang"
+  | .ctxErr => "ctx"
+  | .got (.msg m) => s!"msg:{m}"
+  | .got .nilOk => "nil"
+  | .got .errClosed => "closed"
+  | .got .errHandler => "handler"
+  | .got .errSend => "send"
+
+def joinOr (l : List String) : String := if l.isEmpty then "-" else String.intercalate "," l
+
+/-- the events one serialised harness operation stands for -/
+def dispEvents (n : Nat) (op : String) : Option (List Ev × Nat × Bool) :=
+  let rest := (op.drop 1).toString
+  match op.take 1 |>.toString with
+  | "s" => some ([.create .send 0, .toHandler n, .toSendG n, .enqueue n, .dsend n true, .pack n false], n + 1, false)
+  | "r" => rest.toNat?.map fun a =>
+      ([.create .reply a, .toHandler n, .toSendG n, .enqueue n, .dsend n true, .pack n false], n + 1, false)
+  | "p" =>
+    match rest.splitOn ":" with
+    | [k, m] => match k.toNat?, m.toNat? with
+      | some k, some m => some ([.reply k m false false], n, false)
+      | _, _ => none
+    | _ => none
+  | "v" => rest.toNat?.map fun m => ([.recv m], n, false)
+  | "c" => rest.toNat?.map fun i => ([.cancel i, .waiterCtx i], n, false)
+  | "x" => some ([.close, .ctxDone []], n, true)
+  | _ => none
+
+def dispRun : List String → Sys → Option Sys
+  | [], s => some s
+  | op :: ops, s =>
+    match dispEvents s.n op with
+    | none => none
+    | some (evs, _, stop) =>
+      let s1 := run s evs
+      if stop then some s1 else dispRun ops s1
+
+def showType : RType → String
+  | .send => "s" | .reply => "r"
+
+def stepDisp (evs : String) : String :=
+  match dispRun (if evs == "-" then [] else evs.splitOn ",") init with
+  | none => "bad-op"
+  | some s =>
+    let s := if s.conn.stopped then s else run s [.close, .ctxDone []]
+    let ids := List.range s.n
+    let nonces := ids.filterMap fun i => (s.reqs i).nonce.map fun k => s!"{i}:{k}"
+    let wire := s.wire.map fun (_, k, t) => s!"{k}:{showType t}"
+    let res := ids.map fun i => showWaiter (s.reqs i).waiter
+    s!"nonces={joinOr nonces} wire={joinOr wire} feed={joinOr (s.feed.map toString)} res={joinOr res}"
+
+def objRun : List String → Obj → Option Obj
+  | [], o => some o
+  | op :: ops, o =>
+    let rest := (op.drop 1).toString
+    match op.take 1 |>.toString with
+    | "y" => match rest.toNat? with
+      | some a => objRun ops (ostep o (.copy a))
+      | none => none
+    | "f" => match rest.splitOn ":" with
+      | [a, v] => match a.toNat?, v.toNat? with
+        | some a, some v => objRun ops (ostep o (.fire a (.msg v) false))
+        | _, _ => none
+      | _ => none
+    | "c" => objRun ops (ostep o .cancel)
+    | _ => none
+
+def stepObj (ops : String) : String :=
+  match objRun (if ops == "-" then [] else ops.splitOn ",") {} with
+  | none => "bad-op"
+  | some o =>
+    let o := ostep o .cancel      -- the harness ends every case by cancelling the context
+    let cl := if o.closes ≥ 2 then "panic" else toString o.closes
+    s!"res={showWaiter o.waiter} closed={cl}"
+
+/-! network scenarios: `net <peers> <reqs>` -/
+
+inductive Act
+  | reply | drop | unknownFirst | dup | late | race
+  deriving DecidableEq, Repr
+
+def parseAct (a : String) : Option Act :=
+  match a.take 1 |>.toString with
+  | "R" => some .reply
+  | "D" => some .drop
+  | "T" => some .drop
+  | "L" => some .drop
+  | "U" => some .unknownFirst
+  | "P" => some .dup
+  | "X" => some .late
+  | "C" => some .race
+  | "K" => some .race
+  | _ => none
+
+/-- peer kind → (what dial + handshake does, whether the peer is probed afterwards) -/
+def parseDial (p : String) : Option (Dial × Bool) :=
+  match p with
+  | "ok" => some (.ok, true)
+  | "close" => some (.ok, false)
+  | "refuse" => some (.refused, false)
+  | "silent" => some (.silent, false)
+  | _ => none
+
+def parseReq (r : String) : Option (Nat × Act) :=
+  match r.splitOn "." with
+  | p :: a :: _ => match p.toNat?, parseAct a with
+    | some p, some a => some (p, a)
+    | _, _ => none
+  | _ => none
+
+def ownPayload (i : Nat) : Nat := 7 * i + 3
+
+/-- events on the connection for one handed request `j` (its index on that connection) with global id `g` -/
+def actEvents (j g : Nat) (nonce : Nat) : Act → List Ev
+  | .reply => [.reply nonce (ownPayload g) false false]
+  | .drop => [.cancel j, .waiterCtx j]
+  | .unknownFirst => [.reply (nonce + 100000) (ownPayload g + 1) false false, .reply nonce (ownPayload g) false false]
+  | .dup => [.reply nonce (ownPayload g) false false, .reply nonce (ownPayload g + 1) false false]
+  | .late => [.cancel j, .waiterCtx j, .reply nonce (ownPayload g) false false]
+  | .race => []
+
+/-- outcome of the requests (global ids `gs`, in order) that were handed to ONE connection -/
+def connOutcomes (gs : List (Nat × Act)) : List (Nat × String) :=
+  let sends : List Ev := (List.range gs.length).flatMap fun j =>
+    [.create .send 0, .toHandler j, .toSendG j, .enqueue j, .dsend j true, .pack j false]
+  let s0 := run init sends
+  let acts : List Ev := (List.zip (List.range gs.length) gs).flatMap fun (j, g, a) =>
+    actEvents j g ((s0.reqs j).nonce.getD 0) a
+  let s1 := run s0 acts
+  (List.zip (List.range gs.length) gs).map fun (j, g, a) =>
+    if a = .race then (g, "any") else
+    match (s1.reqs j).waiter with
+    | .got (.msg m) => (g, if m = ownPayload g then "ok" else s!"ok-wrong:{m}")
+    | .waiting => (g, "hang")
+    | _ => (g, "err")
+
+def stepNet (deadline : Bool) (peers reqs : String) : String :=
+  match (peers.splitOn ",").mapM parseDial, (reqs.splitOn ",").mapM parseReq with
+  | some ps, some rs =>
+    let np := ps.length
+    if rs.any (fun r => r.1 ≥ np) then "bad-op" else
+    let idx := List.zip (List.range rs.length) rs
+    let dialOf := fun (p : Nat) => (ps.getD p (.refused, false)).1
+    -- requests to silent peers are issued first, then the others, then one probe per answering peer
+    let first := idx.filter fun (_, p, _) => dialOf p = .silent
+    let rest := idx.filter fun (_, p, _) => dialOf p ≠ .silent
+    let probes : List (Nat × Nat × Act) :=
+      (List.zip (List.range np) ps).filterMap fun (p, _, probe) => if probe then some (rs.length + p, p, Act.reply) else none
+    let order := first ++ rest ++ probes
+    let hevs := order.map fun (g, p, _) => HEv.call g p (dialOf p)
+    let outs := (hrun deadline {} hevs).2
+    let handed := order.filter fun (g, p, _) => outs.contains (.handed g p)
+    let perPeer := (List.range np).flatMap fun p =>
+      connOutcomes ((handed.filter fun (_, q, _) => q = p).map fun (g, _, a) => (g, a))
+    let outcome := fun (g : Nat) => match perPeer.find? (fun e => e.1 = g) with
+      | some e => e.2
+      | none => "err"
+    let res := (List.range rs.length).map outcome
+    let pr := probes.map fun (g, _, _) => outcome g
+    s!"res={joinOr res} probes={joinOr pr}"
+  | _, _ => "bad-op"
+
+def driverStep (deadline : Bool) (line : String) : String :=
+  match words line with
+  | ["disp", evs] => stepDisp evs
+  | ["obj", ops] => stepObj ops
+  | ["net", peers, reqs] => stepNet deadline peers reqs
+  | _ => "bad-op"
+
 end Dos.Dispatch
